@@ -1245,7 +1245,7 @@ def main(repo: str, outdir: str, dry: bool = False) -> int:
     def f_degstep():
         import py2lean
         try:
-            body = py2lean.gen_degree_step(src("analysis.py"))
+            body = py2lean.gen_degree_step(src("analysis.py")) + "\n" + py2lean.gen_degree_iter_step(src("analysis.py"))
         except py2lean.TranslateError as e:
             raise TranslateError(str(e))
         return (HEADER + "import Optyx.Py.StepSupport\n\nset_option linter.unusedVariables false\n\n"
